@@ -820,6 +820,9 @@ func (p *parser) parseFuncSpecBody(fs *FuncSpec) {
 			}
 			fs.Loops[k] = ls
 		case "ghost":
+			if nt := p.toks[p.i+1]; nt.s != "before" && nt.s != "after" && nt.s != "at" {
+				return // a top-level ghost variable declaration
+			}
 			p.next()
 			gp := &GhostPoint{}
 			gp.When = p.ident() // before | after | at
